@@ -197,7 +197,10 @@ func defaultStatus(mi *dyn.MethodInfo) int {
 
 func checkErr(rec *stats.Recorder, c errCase) (msg string, known string) {
 	mi := dyn.FindMethod(S, c.Call.Resource, c.Call.Method)
-	w := getWorld("bare")
+	if c.Mount == "" {
+		c.Mount = "bare" // (replay files written before the mount was drawn)
+	}
+	w := getWorld(c.Mount)
 	kind := mi.M.Kind
 	if kind == "REST_METHOD" {
 		kind = mi.M.Name
